@@ -29,6 +29,67 @@ def run(ctx):
     c15_2(ctx)
     c15_3(ctx)
     c15_4(ctx)
+    c15_5(ctx)
+
+
+def _find(fb, prefix):
+    fs = [f for p, f in fb.fns.items() if (p == prefix or p.startswith(prefix + "::<")) and f.e["kind"] in ("Fn", "AssocFn")]
+    return fs[0] if len(fs) == 1 else None
+
+
+def c15_5(ctx):
+    """every (pk, msg) pair contributes exactly one factor on every verification path: the cached verifier maps the
+    caller's iterator 1:1 (no filter / dedup / skip), the folds multiply on every iteration, the closure returns a pairing on
+    both the hit and the miss branch"""
+    from .. import apnf
+    from .. import paths as P
+    R = "C15.5"
+    fb = ctx.fb
+    f = _find(fb, "chia_bls::bls_cache::BlsCache::aggregate_verify")
+    if f:
+        b = Body(f, fb)
+        ctx.touched(b.path)
+        gt = [t for bi, n, t in b.calls() if "aggregate_verify_gt" in n]
+        ok = len(gt) == 1
+        it = None
+        if ok:
+            it = apnf.N(strip_all(b.operand_term(gt[0]["args"][1])))
+            ok = isinstance(it, tuple) and it[0] == "map" and it[1] == "pks_msgs" and isinstance(it[2], tuple) and it[2][0] == "closure"
+        ctx.ob(R, "cached:one-factor-per-pair", ok, "BlsCache::aggregate_verify hands aggregate_verify_gt exactly pks_msgs.map(pairing): one factor per pair",
+               found=str(it)[:200], where=f.sp)
+        cl = fb.closures_of(f.path)
+        if len(cl) == 1:
+            cb = Body(cl[0], fb)
+            rets = set()
+            for ev, ex in P.enumerate_paths(cb):
+                if ex[0] == "return":
+                    rets.add(str(apnf.N(P.ret_of(ev)))[:60])
+                elif ex[0] != "diverge":
+                    rets.add("?" + str(ex[0]))
+            ok = len(rets) == 2 and any("Signature::pair" in r for r in rets) and any("cloned" in r or "HashMap::get" in r or "get" in r for r in rets)
+            ctx.ob(R, "cached:closure-returns-pairing", ok, "the per-pair closure returns the cached pairing on a hit and the computed pairing on a miss", found=sorted(rets))
+        else:
+            ctx.missing(R, "cached:closure", "closure not found")
+    else:
+        ctx.missing(R, "cached", "BlsCache::aggregate_verify not found")
+    for nm, step in (("aggregate_verify_gt", "mul_assign"), ("aggregate_verify", "blst_pairing_aggregate_pk_in_g1")):
+        f = _find(fb, "chia_bls::signature::" + nm)
+        if not f:
+            ctx.missing(R, "fold:" + nm, "not found")
+            continue
+        b = Body(f, fb)
+        ctx.touched(b.path)
+        nxt = [bi for bi, n, t in b.calls() if n.endswith("::next") and b.in_cycle(bi)]
+        steps = [bi for bi, n, t in b.calls() if step in n and b.in_cycle(bi)]
+        ok = len(nxt) == 1 and len(steps) == 1
+        if ok:
+            # from the Some-edge of next, the loop head is not reachable again without the fold step; leaving the loop
+            # without it is only possible through a `return false`
+            for x in b.succ[nxt[0]]:
+                if b.reachable_avoiding(x, [nxt[0]], [steps[0]]):
+                    ok = False
+        ctx.ob(R, "fold:" + nm, ok, "%s folds every element of its input (no iteration returns to the loop head without `%s`)" % (nm, step),
+               found={"next": len(nxt), "step": len(steps)}, where=f.sp)
 
 
 def c15_1(ctx):
